@@ -479,6 +479,22 @@ impl<'c, 'a, 'ast> Visit<'ast> for BodyVisitor<'c, 'a> {
             Expr::Closure(c) => {
                 self.closure_no += 1;
                 let n = self.closure_no;
+                // R15: a wildcard closure parameter `|_|` -> `|_vx_wN|` (Verus: "only variables are supported here"). The argument is
+                // moved into the closure either way and never used; no extracted body changes meaning.
+                for (k, p) in c.inputs.iter().enumerate() {
+                    let w = match p {
+                        syn::Pat::Wild(w) => Some(w.span()),
+                        syn::Pat::Type(pt) => match &*pt.pat {
+                            syn::Pat::Wild(w) => Some(w.span()),
+                            _ => None,
+                        },
+                        _ => None,
+                    };
+                    if let Some(sp) = w {
+                        let (ws, we) = self.cx.f.range(sp);
+                        self.cx.edit(ws, we, format!("_vx_w{}", k), 0, "R15-closure-wildcard");
+                    }
+                }
                 if let Some(cd) = self.d.closures.get(&n) {
                     self.closures_done.push(n);
                     if let (Some(r), syn::ReturnType::Type(_, ty)) = (&cd.ret, &c.output) {
@@ -506,6 +522,32 @@ impl<'c, 'a, 'ast> Visit<'ast> for BodyVisitor<'c, 'a> {
                 syn::visit::visit_expr_cast(self, c);
             }
             Expr::Unsafe(_) => die("unsafe block in extracted function"),
+            Expr::Lit(l) if matches!(l.lit, syn::Lit::ByteStr(_)) => {
+                // R17: byte-string literal `b"ab"` -> `&[97u8, 98u8]` (the same `&'static [u8; N]` value by the language definition;
+                // Verus keeps the contents of an array literal but treats a byte-string literal as an opaque constant)
+                if let syn::Lit::ByteStr(bs) = &l.lit {
+                    let v = bs.value();
+                    let (s, e) = self.cx.f.range(l.span());
+                    let t = if v.is_empty() {
+                        "&[0u8; 0]".to_string()
+                    } else {
+                        format!("&[{}]", v.iter().map(|b| format!("{}u8", b)).collect::<Vec<_>>().join(", "))
+                    };
+                    self.cx.edit(s, e, t, 0, "R17-bytestr");
+                }
+            }
+            Expr::MethodCall(mc) if self.d.tryinto_as_tryfrom && mc.method == "try_into" && mc.args.is_empty() && mc.turbofish.is_none() => {
+                // R16 (opt-in): `e.try_into()` -> `core::convert::TryFrom::try_from(e)`. This is the body of core's only impl
+                // `impl<T, U: TryFrom<T>> TryInto<U> for T`; vstd can attach a contract to a concrete `TryFrom` impl but not to the
+                // blanket `TryInto` one. A modelling assumption on `core`, logged like every other rewrite.
+                let (s, _) = self.cx.f.range(mc.span());
+                let (_, re) = self.cx.f.range(mc.receiver.span());
+                let (_, e2) = self.cx.f.range(mc.span());
+                let size = (e2 - s) as i32;
+                self.cx.edit(s, s, "core::convert::TryFrom::try_from(".to_string(), 100000 - size, "R16-try-into");
+                self.cx.edit(re, e2, ")".to_string(), 0, "R16-try-into");
+                self.visit_expr(&mc.receiver);
+            }
             _ => syn::visit::visit_expr(self, e),
         }
     }
@@ -1156,13 +1198,22 @@ fn main() {
                     files.insert(idir.file.clone(), SrcFile::load(root, &idir.file));
                 }
                 let f = &files[&idir.file];
+                let item_cfg_owned;
+                let cfg: &cfgeval::Cfg = if idir.extra_cfg.is_empty() {
+                    &cfg
+                } else {
+                    let mut ents = unit.cfg.clone();
+                    ents.extend(idir.extra_cfg.iter().cloned());
+                    item_cfg_owned = cfgeval::Cfg::new(&ents);
+                    &item_cfg_owned
+                };
                 let found: Vec<&Item> =
                     find_in_items(&f.ast.items, &idir.path, f).into_iter().filter(|it| cfg.attrs_enabled(item_attrs(it))).collect();
                 if found.len() < idir.nth {
                     die(&format!("item not found: {} :: {}", idir.file, idir.path.join(" :: ")));
                 }
                 let it = found[idir.nth - 1];
-                let mut cx = Ctx { f, cfg: &cfg, edits: vec![], constfold: vec![], log: vec![] };
+                let mut cx = Ctx { f, cfg, edits: vec![], constfold: vec![], log: vec![] };
                 let (s, e) = f.range(it.span());
                 match it {
                     Item::Fn(x) => {
@@ -1212,6 +1263,14 @@ fn main() {
                     }
                     Item::Enum(x) => {
                         cx.attrs(&x.attrs, (s, e), &idir.keep_derive);
+                        cx.vis(&x.vis);
+                        // R1/R2 on the variants (a cfg'd-out variant is deleted together with its trailing comma)
+                        for pair in x.variants.pairs() {
+                            let v = pair.value();
+                            let (vs, ve) = f.range(v.span());
+                            let ve = pair.punct().map(|p| f.range(p.span()).1).unwrap_or(ve);
+                            cx.attrs(&v.attrs, (vs, ve), &[]);
+                        }
                     }
                     _ => die("unsupported item kind"),
                 }
